@@ -101,6 +101,8 @@ def to_real(v):
                 "xmlduration": XmlDuration("P1D"), "pydate": datetime.date(2020, 1, 2)}[v["tag"]]
     if t == "enum":
         return {"Color": m.Color.RED, "Shade": m.Outer.Shade.DARK, "Tint": m.Outer.Mid.Tint.PALE}[v["home"]["path"][-1]]
+    if t == "map":
+        return {to_real(k): to_real(x) for k, x in v["items"]}
     if t == "seq":
         items = [to_real(x) for x in v["items"]]
         return tuple(items) if v["kind"] == "tuple" else items
@@ -133,7 +135,7 @@ def evaluate(ctx, obj, info, tags=()):
 
 def run(ctx):
     ctx.rule = (
-        "TLC: Holder(a, b) over 17 kinds of leaf (incl. classes and enums nested two and three levels deep) + lists/tuples of them (3190 values), invariant EvaluatesBack with the open "
+        "TLC: Holder(a, b) over 17 kinds of leaf (incl. classes and enums nested two and three levels deep) + lists/tuples of them (3658 values), invariant EvaluatesBack with the open "
         "findings excused by selectors. Real code: each value built from real classes, rendered by PycodeSerializer, exec()ed "
         "in a fresh namespace and compared with the original; model zoo + frozen/tuple/dict models. A case is a distinct value."
     )
